@@ -190,7 +190,16 @@ func (g *gen) call(instr ssa.Instruction, c *ssa.CallCommon, pos token.Pos) Val 
 				// callees assume that syntax-node arguments are nodes of the analysed tree (or nil, for interface-typed ones)
 				g.declTnode()
 				if isAstPtr(p.Type()) && args[i].Sort == "Int" {
-					g.obligeAndAssume("nilarg", g.label(pos, callee.Name(), "call")+" arg "+p.Name()+" is a tree node", app("tnode", args[i].T), pos)
+					claim := app("tnode", args[i].T)
+					if g.e.sentinelParam(callee, i) {
+						if sent := g.sentinelFor(p.Type()); sent != "" {
+							claim = or(claim, eq(args[i].T, sent))
+						}
+					}
+					g.obligeAndAssume("nilarg", g.label(pos, callee.Name(), "call")+" arg "+p.Name()+" is a tree node", claim, pos)
+					if len(g.obls) > 0 && i < len(c.Args) && mayBeAstcastResult(c.Args[i], g.e, g.fn) {
+						g.obls[len(g.obls)-1].Meta = fmt.Sprintf("sentparam:%s#%d", funcKey(callee), i)
+					}
 				} else if isAstNodeSlice(p.Type()) && args[i].Sort == "Slice" && !walkerEntry[callee.Name()] {
 					g.declareFun("astlist", []string{"Int"}, "Bool")
 					q := g.freshName("li")
@@ -1281,15 +1290,36 @@ func (g *gen) astcastModel(sig *types.Signature, args []Val, r Val) {
 	if !ok {
 		return
 	}
-	sname := g.st.structName(pt.Elem())
-	sent := "sentinel_" + sanitize(sname)
-	g.declare(sent, "Int")
+	sent := g.sentinelFor(rt)
+	if sent == "" {
+		return
+	}
+	_ = st
 	hit := eq(app("i_tag", args[0].T), fmt.Sprint(g.st.tagOf(rt)))
 	g.assume(ite(hit, eq(r.T, app("i_val", args[0].T)), eq(r.T, sent)))
-	g.assume(not(eq(sent, "0")))
+}
+
+// sentinelFor declares the package-level all-zero node astcast.NilX for pointer type *ast.X (once): non-nil, not a tree
+// node, every field reads as its zero value; the type checker has recorded nothing for it.
+func (g *gen) sentinelFor(rt types.Type) string {
+	pt, ok := rt.Underlying().(*types.Pointer)
+	if !ok {
+		return ""
+	}
+	st, ok := pt.Elem().Underlying().(*types.Struct)
+	if !ok {
+		return ""
+	}
+	sname := g.st.structName(pt.Elem())
+	sent := "sentinel_" + sanitize(sname)
+	if g.declared[sent] {
+		return sent
+	}
+	g.declare(sent, "Int")
+	g.assumeGlobal(not(eq(sent, "0")))
 	if g.astValid {
 		g.declTnode()
-		g.assume(not(app("tnode", sent)))
+		g.assumeGlobal(not(app("tnode", sent)))
 	}
 	for i := 0; i < st.NumFields(); i++ {
 		f := st.Field(i)
@@ -1298,7 +1328,11 @@ func (g *gen) astcastModel(sig *types.Signature, args []Val, r Val) {
 		}
 		s := g.st.sortOf(f.Type())
 		k := fieldKey(sname, f.Name())
-		g.assume(eq(app("select", g.heapGet(k, arr("Int", s)), sent), g.st.zero(f.Type())))
+		// sentinels are never written: the fact is stated about the entry heap and about the current one
+		g.assumeGlobal(eq(app("select", g.heapInit(k, arr("Int", s)), sent), g.st.zero(f.Type())))
+		if cur := g.heapGet(k, arr("Int", s)); cur != g.heapInit(k, arr("Int", s)) {
+			g.assume(eq(app("select", cur, sent), g.st.zero(f.Type())))
+		}
 	}
 	if strings.HasSuffix(sname, "ast.Ident") {
 		// the type checker records nothing for an identifier that is not part of the checked files
@@ -1307,6 +1341,7 @@ func (g *gen) astcastModel(sig *types.Signature, args []Val, r Val) {
 		g.assumed["theory go-types: Info.ObjectOf(astcast.NilIdent) is nil"] = true
 		g.assumeGlobal(fmt.Sprintf("(forall ((%s Int)) (! (= (i_tag (spec_infoObjectOf %s %s)) 0) :pattern ((spec_infoObjectOf %s %s))))", q, q, sent, q, sent))
 	}
+	return sent
 }
 
 
@@ -1368,4 +1403,46 @@ func rootOf(fn *ssa.Function) *ssa.Function {
 		fn = fn.Parent()
 	}
 	return fn
+}
+
+
+// mayBeAstcastResult: the value is (or may be, through a phi, a local variable or a sentinel-tolerant parameter of the
+// enclosing function) the result of astcast.ToX, which is the all-zero sentinel node on a type mismatch.
+func mayBeAstcastResult(v ssa.Value, e *Engine, fn *ssa.Function) bool {
+	seen := map[ssa.Value]bool{}
+	var rec func(v ssa.Value, d int) bool
+	rec = func(v ssa.Value, d int) bool {
+		if d > 4 || seen[v] {
+			return false
+		}
+		seen[v] = true
+		switch x := v.(type) {
+		case *ssa.Call:
+			if c := x.Call.StaticCallee(); c != nil && strings.HasPrefix(extKey(c), "github.com/go-toolsmith/astcast.To") {
+				return true
+			}
+		case *ssa.Phi:
+			for _, ed := range x.Edges {
+				if rec(ed, d+1) {
+					return true
+				}
+			}
+		case *ssa.Parameter:
+			for pi, pp := range fn.Params {
+				if pp == x && e.sentinelParam(fn, pi) {
+					return true
+				}
+			}
+		case *ssa.UnOp:
+			if a, ok := x.X.(*ssa.Alloc); ok && a.Referrers() != nil {
+				for _, r := range *a.Referrers() {
+					if st, ok := r.(*ssa.Store); ok && st.Addr == ssa.Value(a) && rec(st.Val, d+1) {
+						return true
+					}
+				}
+			}
+		}
+		return false
+	}
+	return rec(v, 0)
 }
